@@ -1289,3 +1289,31 @@ def format_balance(R, ctx, rid):
                     why = "closed on every path by insert_negated_attributes(%s)" % sshow(arg, 4)
             R.ob(rid, fn, site, ok, why, cs.loc())
     R.floor(rid, "callers of insert_attributes", n, 2)
+
+
+def export_extent(R, ctx, rid):
+    """the block export is bounded by what the store holds, not by the gap-aware state vector."""
+    Y = ctx.yrs
+    R.rule(rid, "R-PROV upper bound of the block export: Store::write_blocks_from (behind update events, encode_diff and the "
+                "full-state export) selects, per client, the blocks between the requested clock and the END of the client's block "
+                "list — the local bound handed to diff_state_vectors is built from ClientBlockList::clock — and not up to "
+                "BlockStore::get_state_vector, which stops at the first gap: blocks integrated behind a Skip (an update of a "
+                "client that arrived before an earlier, independent one) lie above the state vector; bounded by it they are "
+                "written to no update event and to no sync answer until the gap is filled")
+    fn = Y.fn("yrs::store::Store::write_blocks_from")
+    v = FnView(fn)
+    ds = fn.calls_to("yrs::store::Store::diff_state_vectors")
+    R.floor(rid, "diff_state_vectors in write_blocks_from", len(ds), 1)
+    for cs, site in ordinal_sites(ds):
+        a = simp_deep(v.arg(cs, 0, 14))
+        gap_aware = term_has_call(a, "yrs::block_store::BlockStore::get_state_vector")
+        extent = term_has_call(a, "yrs::block_store::BlockStore::iter") or term_has_call(a, "yrs::block_store::ClientBlockList::clock") \
+            or term_has_call(a, "yrs::block_store::BlockStore::get_clock")
+        if not extent:
+            # the bound may be assembled by a closure over the block lists
+            for c in Y.with_closures(fn):
+                if c.path != fn.path and c.calls_to("yrs::block_store::ClientBlockList::clock"):
+                    extent = extent or any(isinstance(x, tuple) and x and x[0] == "agg" and x[1] == c.path for x in walk(a))
+        R.ob(rid, fn, site + ":local-bound", extent and not gap_aware,
+             "local bound = extent of the block lists (%s)" % sshow(a, 5) if extent and not gap_aware else
+             "local bound = %s — the gap-aware state vector: blocks behind a Skip are never exported" % sshow(a, 5), cs.loc())
